@@ -1,6 +1,8 @@
 /* C10: mpn logical functions. FN 0 and_n 1 andn_n 2 ior_n 3 iorn_n 4 nand_n 5 nior_n 6 xor_n 7 xnor_n 8 com_n
    9 popcount 10 hamdist 11 scan0 12 scan1 (START concrete, a hit is guaranteed by assumption as the manual requires).
-   ALIAS 0 separate 1 rp==up 2 rp==vp */
+   ALIAS 0 separate 1 rp==up 2 rp==vp
+   PAT t (popcount/hamdist beyond 2-3 limbs, where the all-values equivalence of the bit trick and an adder is SAT-hard): domain D-PAT,
+   every limb drawn from the 2^t-entry corner table (0, B-1, 1, B/2, ..., 0x55.., 0xAA..) by a symbolic selector */
 #include "vh.h"
 #ifndef START
 #define START 0
@@ -8,7 +10,11 @@
 VF_MAIN_BEGIN
   mp_limb_t u[N], v[N], r[N], u0[N], v0[N]; int i; mp_limb_t *rp = ALIAS == 1 ? u : ALIAS == 2 ? v : r;
   VF_FIDELITY ();
+#ifdef PAT
+  vf_fill_pat (u, N, PAT); vf_fill_pat (v, N, PAT);      /* D-PAT: every limb is CORNER[selector], selector symbolic with PAT bits */
+#else
   vf_fill (u, N); vf_fill (v, N);
+#endif
   for (i = 0; i < N; i++) { u0[i] = u[i]; v0[i] = v[i]; }
 #if FN <= 8
   switch (FN) {
